@@ -10,7 +10,7 @@ from ..strategies import program_strategy, sim_cases, spec_strategy
 from ._sim_common import frac, summarize
 
 ID = "C09"
-RULE = ("(sim) Hypothesis generates session lists (both flags, maxNormalOrders 0-4, maxHighFrequencyOrders 0-3, submit rate "
+RULE = ("(sessions may spell each of the two renamed high-frequency keys in its deprecated form; with >=4 agents the observed consultation orders must not all be (mirrored) rotations of one order) (sim) Hypothesis generates session lists (both flags, maxNormalOrders 0-4, maxHighFrequencyOrders 0-3, submit rate "
         "0 / 1 / 0.5), 1-8 scripted normal agents and 0-3 scripted high-frequency agents whose programs often decline, probe "
         "events, and in a third of the cases a TradingHaltRule (any session, halting length 0-6). Per step of the trace: no "
         "placement => no consultation / acceptance; no execution (as configured) => no fill whatever events exist; each normal "
